@@ -396,7 +396,9 @@ func (c Check[C]) Run(t *testing.T) {
 	_ = flag.Set("rapid.seed", strconv.FormatUint(rapidSeed(c.key()), 10))
 	_ = flag.Set("rapid.nofailfile", "true")
 	t0 := time.Now()
-	defer func() { fmt.Printf("phase %s: %d checks requested, %.1fs\n", c.key(), c.Checks, time.Since(t0).Seconds()) }()
+	defer func() {
+		fmt.Printf("phase %s: %d checks requested, %.1fs\n", c.key(), c.Checks, time.Since(t0).Seconds())
+	}()
 	rapid.Check(t, func(rt *rapid.T) {
 		cs := c.Gen(rt)
 		err := guard(func() error { return c.Oracle(cs) })
